@@ -21,7 +21,7 @@ let split_obs o =
     Some ((if d = "" then [] else String.split_on_char ';' d), (if p = "" then [] else String.split_on_char ';' p), dump)
   with _ -> None
 let dump_of o =
-  if String.length o >= 2 && (o.[0] = 'I' || o.[0] = 'S' || o.[0] = 'Z') then (try let i = String.index o ' ' in String.sub o (i + 1) (String.length o - i - 1) with Not_found -> "")
+  if String.length o >= 2 && (o.[0] = 'I' || o.[0] = 'S' || o.[0] = 'Z' || o.[0] = 'U') then (try let i = String.index o ' ' in String.sub o (i + 1) (String.length o - i - 1) with Not_found -> "")
   else match split_obs o with Some (_, _, d) -> d | None -> o
 
 (* per-device segments of a dump: eui -> "dev..;outbox..;inbox.." ; plus fb entries by dashed eui *)
